@@ -24,7 +24,7 @@ Definition counterpart : list (string * string * bool) :=
 Definition cli_only : list (string * string) :=
   [ ("exitCode", "the analysis driver (singlechecker) owns the exit status: 3 with diagnostics, 1 on errors");
     ("concurrency", "the analysis driver schedules the passes");
-    ("checkTests", "the analysis driver analyses every variant it loads; there is no file filter");
+    ("checkTests", "an output filter on the test variant the CLI always loads; the driver's own -test=false is not its equivalent: it loads the base variant instead, where method sets can differ");
     ("checkGenerated", "no file filter in the analysis front-ends");
     ("shorterErrLocation", "the analysis driver prints absolute positions");
     ("memprofile", "the analysis driver has its own -memprofile");
